@@ -69,6 +69,7 @@ Definition early_col (h ha : hier) (lvl : name) (g1 : egraph) (hd bb : name) : Z
       let h' := write_back h lvl g' in
       if is_region nl && nodupb (ekeys g') && is_none (efind g1 lvl) &&
          forallb (fun n => is_region n || forallb (resolves h) (n_jt n)) h &&
+         flat_okb h' TOP true &&
          Nat.eqb (length h') (length ha) &&
          forallb (fun n => match find ha (n_name n) with Some m => xnode_eqb n m | None => false end) h'
       then 3 else 0
